@@ -228,6 +228,26 @@ def gen_task(rng, n, like=None):
     return task
 
 
+def gen_compensating(rng, n_extra):
+    """a structured candidate set: the individually best members err in opposite directions (y+e, y-e, …), so the
+    starting ensemble of k_init of them is much better than each of them; the other candidates have larger individual
+    errors (they are not in the start) but small enough to be tempting.  -> (task, k_init)"""
+    S = rng.choice([1, 2, 4])
+    pairs = rng.choice([1, 1, 2])
+    y = [rng.randint(-16, 16) / 8 for _ in range(S)]
+    task = {"kind": "reg", "S": S, "masked": False, "agg": "mean", "loss": rng.choice(["se", "se", "ae"]), "y": y, "preds": []}
+    for _ in range(pairs):
+        e = [rng.choice([-1, 1]) * rng.choice([0.5, 1.0, 2.0]) for _ in range(S)]
+        task["preds"].append({"loc": [t + d for t, d in zip(y, e)]})
+        task["preds"].append({"loc": [t - d for t, d in zip(y, e)]})
+    emax = max(abs(p["loc"][s_] - y[s_]) for p in task["preds"] for s_ in range(S))
+    for _ in range(n_extra):
+        f = rng.choice([1.25, 1.5, 2.0, 2.5])
+        task["preds"].append({"loc": [t + rng.choice([-1, 1]) * f * emax for t in y]})
+    rng.shuffle(task["preds"])
+    return task, 2 * pairs
+
+
 def gen_with_history(rng, n):
     """a task to be selected on a selector object that already served 1..3 other select() calls
     (other candidate sets: different sizes, plain / masked)"""
@@ -393,16 +413,21 @@ def _greedy_oracle(task, opts, res):
         fails.append(("at-most-k", f"{len(idx)} members, bound max(k, min(k_init, n)) = {bound}"))
     if len(w) != len(idx) or not all(x > 0 for x in w) or abs(sum(w) - 1) > 1e-9:
         fails.append(("weights", f"weights {w}"))
-    unchanged = res["rec"].L0 is not None and sorted(idx) == sorted(res["rec"].L0[0]) and max(w) - min(w) < 1e-15
-    # (the starting ensemble itself, returned with uniform weights: the same mixture as the un-weighted aggregation the
-    #  loop started from — C19_uniform_eq_none / C19_perm; re-evaluating it could only differ by float rounding, which a
-    #  discontinuous loss such as 0-1 at an exact argmax tie turns into a jump)
-    if not fails and res["rec"].L0 is not None and not unchanged:
-        start = res["rec"].L0[1]
-        final = _ens_loss(res, idx, w)
-        if not final <= start + 1e-9 * (1 + abs(start)):
-            fails.append(("no-worse-than-start", f"loss of the returned ensemble {final!r} > loss of the starting "
-                                                 f"ensemble {res['rec'].L0[0]}: {start!r}"))
+    # the starting ensemble, determined independently of what the selector computed: the min(k_init, n) candidates of
+    # lowest individual loss (np.argsort of the individual losses), aggregated without weights
+    ml = [res["rec"].member_loss.get(i) for i in range(n)]
+    if not fails and all(v is not None and np.isfinite(v) for v in ml):
+        init = [int(i) for i in np.argsort(ml)[: opts["k_init"]]]
+        unchanged = sorted(idx) == sorted(init) and max(w) - min(w) < 1e-15
+        # (the starting ensemble itself, returned with uniform weights: the same mixture as its un-weighted aggregation —
+        #  C19_uniform_eq_none / C19_perm; re-evaluating it could only differ by float rounding, which a discontinuous
+        #  loss such as 0-1 at an exact argmax tie turns into a jump)
+        if init and not unchanged:
+            start = _ens_loss(res, init, None)
+            final = _ens_loss(res, idx, w)
+            if not final <= start + 1e-9 * (1 + abs(start)):
+                fails.append(("no-worse-than-start", f"loss of the returned ensemble {final!r} > loss of the starting "
+                                                     f"ensemble {init}: {start!r}"))
     return fails
 
 
@@ -553,55 +578,75 @@ def _loader_class():
     return _Loader
 
 
-def run_predictor(finish_order, mode="list", loader=False, fail=None, evaluator="scripted"):
+def run_predictor(finish_order, mode="list", loader=False, fail=None, evaluator="scripted", history=None, via_copy=False):
     """members finish in `finish_order` (list of member indices).
     mode: "list" = predictions_from_predictors, "predict" = predict() (MeanAggregator, weights 1,2,4,…);
     loader: members are PredictorLoaders; fail: index of a member whose predict raises;
-    evaluator: "scripted" (thread backend, one worker per member, event chain), None / "thread" / "serial" (the
-    constructor's other accepted forms; one worker, completion = submission order)"""
+    evaluator: "scripted" (thread backend, one worker per member, event chain), None / "thread" / dict (the constructor's
+    other accepted forms; one worker, completion = submission order);
+    history: earlier calls ({"finish_order", "mode", "loader", "fail", "copy"}) made on the SAME EnsemblePredictor — or,
+    with "copy", on a shallow copy sharing its evaluator, as `OnlineSelector.ensemble` hands out — with their own member
+    sets (other sizes); via_copy: the judged call itself goes through such a copy"""
+    import copy as _copy
+
     from deephyper.ensemble import EnsemblePredictor
     from deephyper.ensemble.aggregator import MeanAggregator
     from deephyper.evaluator.callback import Callback
 
+    history = history or []
     n = len(finish_order)
-    key = None
-    gates = []
-    if evaluator == "scripted":
-        gates = [threading.Event() for _ in range(n)]
-        gates[0].set()
-        key = f"run{len(_GATES)}"
-        _GATES[key] = gates
-    rank = {m: r for r, m in enumerate(finish_order)}
-    members = [_Member(i, rank[i], key, fail=(fail == i)) for i in range(n)]
-    if loader:
-        L = _loader_class()
-        members = [L(m) for m in members]
+    nmax = max([n] + [len(h["finish_order"]) for h in history])
     seen = []
 
     class Spy(Callback):
         def on_done(self, job):
             seen.append((str(job.id), int(getattr(job.args["predictor"], "i"))))
 
+    def members_of(order, loader_, fail_):
+        key, gates = None, []
+        if evaluator == "scripted":
+            gates = [threading.Event() for _ in range(len(order))]
+            gates[0].set()
+            key = f"run{len(_GATES)}"
+            _GATES[key] = gates
+        rank = {m: r for r, m in enumerate(order)}
+        ms = [_Member(i, rank[i], key, fail=(fail_ == i)) for i in range(len(order))]
+        if loader_:
+            L = _loader_class()
+            ms = [L(m) for m in ms]
+        return ms, gates
+
+    def one_call(ens, order, mode_, loader_, fail_, copy_):
+        ms, gates = members_of(order, loader_, fail_)
+        target = _copy.copy(ens) if copy_ else ens
+        target.predictors = ms
+        target.weights = [float(2 ** i) for i in range(len(order))]
+        X = np.zeros((1, 1))
+        try:
+            if mode_ == "predict":
+                return {"predict": [float(v) for v in np.asarray(target.predict(X)).reshape(-1)]}
+            return {"returned": [int(np.asarray(a).reshape(-1)[0]) for a in target.predictions_from_predictors(X, ms)]}
+        finally:
+            for g in gates:
+                g.set()
+
     weights = [float(2 ** i) for i in range(n)]
     res = {"seen": seen, "weights": weights}
     try:
         if evaluator == "scripted":
-            ev = {"method": "thread", "method_kwargs": {"num_workers": n, "callbacks": [Spy()]}}
+            ev = {"method": "thread", "method_kwargs": {"num_workers": nmax, "callbacks": [Spy()]}}
         else:
             ev = evaluator
-        ens = EnsemblePredictor(members, MeanAggregator(), weights=weights, evaluator=ev)
-        X = np.zeros((1, 1))
-        if mode == "predict":
-            out = ens.predict(X)
-            res.update(outcome="ok", predict=[float(v) for v in np.asarray(out).reshape(-1)])
-        else:
-            ys = ens.predictions_from_predictors(X, members)
-            res.update(outcome="ok", returned=[int(np.asarray(a).reshape(-1)[0]) for a in ys])
+        ens = EnsemblePredictor([], MeanAggregator(), weights=None, evaluator=ev)
+        for h in history:
+            try:
+                one_call(ens, h["finish_order"], h.get("mode", "list"), h.get("loader", False), h.get("fail"), h.get("copy", False))
+            except Exception:  # noqa: BLE001 - an earlier call that failed is part of the history too
+                pass
+        del seen[:]
+        res.update(outcome="ok", **one_call(ens, finish_order, mode, loader, fail, via_copy))
     except Exception as e:  # noqa: BLE001
         res.update(outcome="exc", exc=f"{type(e).__name__}: {str(e)[:200]}", exc_type=type(e).__name__)
-    finally:
-        for g in gates:
-            g.set()
     return res
 
 
@@ -781,6 +826,31 @@ def _online_case(ck, d, task, opts, fail_at, verbose=False):
             res = dict(holder, outcome="exc", exc=f"{type(e).__name__}: {str(e)[:160]}")
         if len(online.y_predictors) != n_ok:
             ck.fail("C20|online-bookkeeping|OnlineSelector.on_done|", "y_predictors does not hold one entry per finished job", case)
+        # judged independently of what the callback stored: every finished job's prediction is valid exactly on its own
+        # y_pred_idx (with its own values there), and the selection is the one a direct select() makes on these arrays
+        _, exp = build(sub)
+        bad = None
+        for k_, (got_a, exp_a) in enumerate(zip(online.y_predictors, exp)):
+            gm, em = np.ma.getmaskarray(got_a), np.ma.getmaskarray(exp_a)
+            if gm.shape != em.shape or (gm != em).any():
+                bad = (f"finished job #{k_}: valid samples {np.nonzero(~gm.reshape(len(gm), -1).all(axis=1))[0].tolist()}, "
+                       f"its y_pred_idx {np.nonzero(~em.reshape(len(em), -1).all(axis=1))[0].tolist()}")
+                break
+            if not np.array_equal(np.ma.getdata(got_a)[~em], np.ma.getdata(exp_a)[~em]):
+                bad = f"finished job #{k_}: stored values differ from its own predictions on its own indices"
+                break
+        if bad:
+            ck.fail("C20|online-masked-predictions|OnlineSelector.on_done|jobs-with-different-y_pred_idx" if n_ok > 1 else
+                    "C20|online-masked-predictions|OnlineSelector.on_done|", "OnlineSelector: a member is recorded as valid on "
+                    "samples it never predicted (or with other values)", case, bad)
+        if res["outcome"] == "ok" and not opts["bagging"]:
+            direct = run_greedy(dict(sub, history=None), opts)
+            if direct["outcome"] != "ok" or list(direct["indices"]) != list(res["indices"]) or any(
+                    abs(a - b) > 1e-12 for a, b in zip(direct["weights"], res["weights"])):
+                ck.fail("C20|online-selection|OnlineSelector.on_done|", "OnlineSelector: selection differs from a direct select() on "
+                        "the jobs' own predictions", case,
+                        {"online": [list(res["indices"]), list(res["weights"])],
+                         "direct": [direct.get("indices"), direct.get("weights"), direct.get("exc")]})
         _greedy_case(ck, d, sub, opts, label="online", res=res, verbose=verbose)
         if res["outcome"] != "ok":
             break
@@ -797,15 +867,64 @@ def _online_case(ck, d, task, opts, fail_at, verbose=False):
                     case, {"predictors": repr(getattr(ens, "predictors", None)), "weights": repr(getattr(ens, "weights", None))})
 
 
-def _predictor_case(ck, d, order, use_predict=False, loader=False, fail=None, evaluator="scripted", verbose=False):
+def _online_topk_case(ck, d, task, k, fail_at, verbose=False):
+    """OnlineSelector driving a TopKSelector: after every finished job the stored predictions must be valid exactly on
+    the job's own y_pred_idx and the selection must be the k lowest losses computed from the jobs' own predictions"""
+    from deephyper.ensemble.selector import OnlineSelector, TopKSelector
+
+    y, preds = build(dict(task, masked=False, preds=[{k_: v for k_, v in p.items() if k_ != "mask"} for p in task["preds"]]))
+    S = task["S"]
+    case = {"kind": "online-topk", "task": task, "k": k, "fail_at": fail_at}
+    _, _, _, _, _, inner_loss = _make_env(task, preds, 0)
+    online = OnlineSelector(y, TopKSelector(inner_loss, k=k), None, lambda job_id: job_id)
+    for j, p in enumerate(task["preds"]):
+        if j in fail_at:
+            online.on_done(types.SimpleNamespace(id=f"0.{j}", output={"objective": "F_failed"}))
+            continue
+        rows = [s_ for s_ in range(S) if not (p.get("mask") or [False] * S)[s_]]
+        job = types.SimpleNamespace(id=f"0.{j}", output={"objective": 0.0, "online_selector": {"y_pred": preds[j][rows], "y_pred_idx": rows}})
+        sub = dict(task, preds=[q for i, q in enumerate(task["preds"][:j + 1]) if i not in fail_at])
+        ck.case({"kind": "online-topk", "task": sub, "k": k}, nontrivial=len(sub["preds"]) >= 2)
+        ck.count("online-topk:calls")
+        try:
+            online.on_done(job)
+        except Exception as e:  # noqa: BLE001
+            ck.fail("C20|never-fails|OnlineSelector.on_done|selector=TopK", "OnlineSelector(TopK): on_done raises", case,
+                    f"{type(e).__name__}: {str(e)[:160]}")
+            return
+        _, exp = build(sub)
+        for k_, (got_a, exp_a) in enumerate(zip(online.y_predictors, exp)):
+            gm, em = np.ma.getmaskarray(got_a), np.ma.getmaskarray(exp_a)
+            if gm.shape != em.shape or (gm != em).any() or not np.array_equal(np.ma.getdata(got_a)[~em], np.ma.getdata(exp_a)[~em]):
+                ck.fail("C20|online-masked-predictions|OnlineSelector.on_done|jobs-with-different-y_pred_idx",
+                        "OnlineSelector: a member is recorded as valid on samples it never predicted (or with other values)", case,
+                        f"finished job #{k_}: valid samples {np.nonzero(~gm.reshape(len(gm), -1).all(axis=1))[0].tolist()}, "
+                        f"its y_pred_idx {np.nonzero(~em.reshape(len(em), -1).all(axis=1))[0].tolist()}")
+                break
+        direct = run_topk(dict(sub, history=None), k)
+        got = (list(online.selected_predictors_indexes), list(online.selected_predictors_weights))
+        if direct["outcome"] != "ok" or (list(direct["indices"]), list(direct["weights"])) != got:
+            ck.fail("C20|online-selection|OnlineSelector.on_done|selector=TopK", "OnlineSelector(TopK): not the k lowest losses of the "
+                    "jobs' own predictions", case, {"online": got, "direct": [direct.get("indices"), direct.get("weights")]})
+        if verbose:
+            print("replay:", {"job": j, "online": got, "direct": direct.get("indices")})
+
+
+def _predictor_case(ck, d, order, use_predict=False, loader=False, fail=None, evaluator="scripted", history=None,
+                    via_copy=False, verbose=False):
     mode = "predict" if use_predict else "list"
-    res = run_predictor(order, mode, loader=loader, fail=fail, evaluator=evaluator)
+    res = run_predictor(order, mode, loader=loader, fail=fail, evaluator=evaluator, history=history, via_copy=via_copy)
     case = {"kind": "predictor", "finish_order": list(order), "use_predict": use_predict, "loader": loader, "fail": fail,
-            "evaluator": evaluator}
+            "evaluator": evaluator, "history": history or [], "via_copy": via_copy}
+    if history:
+        ck.count(f"predictor:reused-evaluator:earlier-calls={len(history)}")
+        ck.count("predictor:reused-evaluator:" + ("same-size" if all(len(h["finish_order"]) == len(order) for h in history)
+                                                  else "other-sizes"))
     n = len(order)
     site = "EnsemblePredictor." + ("predict" if use_predict else "predictions_from_predictors")
     cls_ = ",".join(x for x in ("evaluator=thread" if evaluator == "scripted" else f"evaluator={evaluator}",
-                               "loader" if loader else "", "member-raises" if fail is not None else "") if x)
+                               "loader" if loader else "", "member-raises" if fail is not None else "",
+                               "reused-evaluator" if history else "") if x)
     seen_members = [m for _, m in res["seen"]]
     ck.case(case, nontrivial=n >= 2 and seen_members != sorted(seen_members))
     ck.count(f"predictor:{mode}:members={n}")
@@ -882,11 +1001,14 @@ def _dispatch(ck, d, case, verbose=False):
         _greedy_case(ck, d, case["task"], case["opts"], verbose=verbose)
     elif case["kind"] == "topk":
         _topk_case(ck, d, case["task"], case["k"], verbose=verbose)
+    elif case["kind"] == "online-topk":
+        _online_topk_case(ck, d, case["task"], case["k"], set(case.get("fail_at", [])), verbose=verbose)
     elif case["kind"] == "online":
         _online_case(ck, d, case["task"], case["opts"], set(case.get("fail_at", [])), verbose=verbose)
     else:
         _predictor_case(ck, d, case["finish_order"], case.get("use_predict", False), loader=case.get("loader", False),
-                        fail=case.get("fail"), evaluator=case.get("evaluator", "scripted"), verbose=verbose)
+                        fail=case.get("fail"), evaluator=case.get("evaluator", "scripted"), history=case.get("history"),
+                        via_copy=case.get("via_copy", False), verbose=verbose)
 
 
 def run(ck):
@@ -925,6 +1047,13 @@ def run(ck):
         for _ in range(ck.pick(200, 4000)):
             n = rng.choice([1, 2, 3, 4, 5, 6, 8, 10, 12])
             _topk_case(ck, d, gen_task(rng, n), rng.choice([1, 1, 2, 3, 5, 5, 8, 14]))
+        # structured starts: members whose errors compensate (the start is better than each of its members)
+        for _ in range(ck.pick(120, 1500)):
+            task, k0 = gen_compensating(rng, rng.choice([1, 2, 3, 5]))
+            opts = gen_opts(rng, len(task["preds"]))
+            opts.update(k_init=k0, k=k0 + rng.choice([1, 2, 4]), early_stopping=rng.random() < 0.85,
+                        eps_tol=rng.choice([1e-3, 2.0 ** -10]), max_it=rng.choice([-1, -1, 3]))
+            _greedy_case(ck, d, task, opts, label="compensating")
         # histories: one selector object serving several select() calls (TopK / Greedy keep no state by contract)
         for _ in range(ck.pick(150, 2500)):
             n = rng.choice([1, 2, 3, 4, 5, 6, 8, 12])
@@ -932,13 +1061,37 @@ def run(ck):
         for _ in range(ck.pick(60, 800)):
             n = rng.choice([1, 2, 3, 5, 8, 12])
             _topk_case(ck, d, gen_with_history(rng, n), rng.choice([1, 2, 3, 5, 8]))
-        for _ in range(ck.pick(40, 600)):
+        for _ in range(ck.pick(60, 700)):
             n = rng.choice([1, 2, 3, 4, 5, 6, 8])
             task = gen_task(rng, n)
             while task["kind"] != "reg":  # OnlineSelector stores predictions shaped like y: regression
                 task = gen_task(rng, n)
             if task["agg"] == "normal":
                 task["agg"], task["loss"] = "mean", rng.choice(["se", "ae"])
+            # which samples each job predicted (y_pred_idx): disjoint folds, overlapping subsets, all, or a mixture;
+            # targets away from 0 (a sample wrongly recorded as predicted holds the value 0)
+            S = rng.choice([2, 3, 4, 6, 8])
+            off = rng.choice([3.0, -5.0, 10.0])
+            task["S"], task["y"] = S, [off + rng.randint(-8, 8) / 8 for _ in range(S)]
+            pattern = rng.choice(["folds", "folds", "overlap", "full", "mixed"])
+            F = rng.choice([2, 3]) if S >= 3 else 2
+            for j_, p_ in enumerate(task["preds"]):
+                p_["loc"] = [t + rng.randint(-8, 8) / 8 for t in task["y"]]
+                pat = pattern if pattern != "mixed" else rng.choice(["folds", "overlap", "full"])
+                if pat == "folds":
+                    mk = [s_ % F != j_ % F for s_ in range(S)]
+                elif pat == "overlap":
+                    mk = [rng.random() < 0.45 for _ in range(S)]
+                else:
+                    mk = [False] * S
+                if all(mk):
+                    mk[rng.randrange(S)] = False
+                p_["mask"] = mk
+            task["masked"] = True
+            ck.count("online:y_pred_idx-pattern=" + pattern)
+            if rng.random() < 0.35:
+                _online_topk_case(ck, d, task, rng.choice([1, 2, 3, 5]), {i for i in range(n) if rng.random() < 0.15})
+                continue
             fail_at = {i for i in range(n) if rng.random() < 0.15}
             _online_case(ck, d, task, gen_opts(rng, n), fail_at)
         # EnsemblePredictor: every finish order, for predictions_from_predictors AND for predict() end to end
@@ -958,6 +1111,22 @@ def run(ck):
             order = list(range(n))
             rng.shuffle(order)
             _predictor_case(ck, d, order, use_predict=rng.random() < 0.5, fail=rng.randrange(n), loader=rng.random() < 0.3)
+        # histories: several predict() / predictions_from_predictors() calls on ONE EnsemblePredictor, or on shallow copies
+        # sharing its evaluator (what OnlineSelector.ensemble hands out), with different member counts: the evaluator's job
+        # counter keeps increasing across calls
+        for _ in range(ck.pick(30, 250)):
+            def rnd_order(k_):
+                o_ = list(range(k_))
+                rng.shuffle(o_)
+                return o_
+            n = rng.randint(1, 4)
+            hist = [{"finish_order": rnd_order(rng.choice([k_ for k_ in (1, 2, 3, 4, 5) if k_ != n] + [n])),
+                     "mode": rng.choice(["list", "predict"]), "loader": rng.random() < 0.2,
+                     "fail": None, "copy": rng.random() < 0.4} for _ in range(rng.randint(1, 3))]
+            if rng.random() < 0.15:
+                hist[0]["fail"] = 0
+            _predictor_case(ck, d, rnd_order(n), use_predict=rng.random() < 0.5, loader=rng.random() < 0.2,
+                            fail=(rng.randrange(n) if rng.random() < 0.1 else None), history=hist, via_copy=rng.random() < 0.4)
         # the other forms of the `evaluator` argument ("serial" is not one the predictor can run with: SerialEvaluator
         # refuses the non-coroutine wrapper at construction; the property quantifies over the thread backend)
         for ev in (None, "thread", {"method": "thread"}, 5, ["thread"]):
